@@ -453,6 +453,14 @@ fn from_enum_map<T: Facet<'static> + Into<Tree>>(
                 unreachable!()
             };
             Value::Plane(Plane { axis, offset: 0.0 })
+        } else if tag == Type::VecTree // Tree -> [Tree] upgrade
+            && vs[Type::Tree].is_some()
+            && !has_ty[Type::Tree]
+        {
+            let Some(Value::Tree(t)) = vs[Type::Tree].take() else {
+                unreachable!()
+            };
+            Value::VecTree(vec![t])
         } else if let Some(v) = d {
             v
         } else {
